@@ -59,8 +59,12 @@ func genDoc(t *rapid.T, name string, isType bool) []string {
 		l := rapid.SampledFrom(rdDocPool).Draw(t, "docline")
 		if i == 0 && isType && rapid.Bool().Draw(t, "nameprefix") {
 			l = name + " " + l
-			if rapid.IntRange(0, 5).Draw(t, "nameonly") == 0 {
+			switch rapid.IntRange(0, 7).Draw(t, "nameonly") {
+			case 0:
 				l = name
+			case 1:
+				// the text after the leading name starts with the name again: only the leading one goes
+				l = name + " " + name + "s are opaque, " + name + " values too"
 			}
 		}
 		if i > 0 && i < n-1 && rapid.IntRange(0, 5).Draw(t, "blank") == 0 {
@@ -85,7 +89,8 @@ func genRDPkg(t *rapid.T, idx int) rdPkg {
 	p := rdPkg{Name: fmt.Sprintf("p%d", idx)}
 	nt := rapid.IntRange(3, 8).Draw(t, "ntypes")
 	fieldN := 0
-	var embeddable []string // struct types of this package that may be embedded (declared earlier)
+	var embeddable []string    // struct types of this package that may be embedded (declared earlier)
+	var genericsSoFar []string // generic struct types declared earlier
 	for i := 0; i < nt; i++ {
 		exported := rapid.IntRange(0, 4).Draw(t, "exported") > 0
 		name := fmt.Sprintf("Type%d", i)
@@ -122,6 +127,10 @@ func genRDPkg(t *rapid.T, idx int) rdPkg {
 				case k <= 4:
 					f.Name = fmt.Sprintf("F%d", fieldN)
 					f.Type = rapid.SampledFrom(rdFieldTypes).Draw(t, "ftype")
+					if len(genericsSoFar) > 0 && rapid.IntRange(0, 3).Draw(t, "instfield") == 0 {
+						// a field whose type instantiates a generic struct of the same package
+						f.Type = rapid.SampledFrom(genericsSoFar).Draw(t, "instof") + rapid.SampledFrom([]string{"[string]", "[int]", "[[]byte]"}).Draw(t, "instarg")
+					}
 					if ty.Kind == "generic" && j == 0 {
 						f.Type = "T"
 					}
@@ -168,6 +177,9 @@ func genRDPkg(t *rapid.T, idx int) rdPkg {
 			}
 			if ty.Kind == "struct" {
 				embeddable = append(embeddable, name)
+			}
+			if ty.Kind == "generic" {
+				genericsSoFar = append(genericsSoFar, name)
 			}
 		}
 		if ty.Kind == "noexported" {
@@ -418,6 +430,8 @@ func (p rdPkg) testSource() string {
 			sort.Strings(unknown)
 			for _, n := range unknown {
 				fmt.Fprintf(b, "\t\tif doc, found := d.RuntimeDoc(%q); found || len(doc) != 0 {\n\t\t\tt.Errorf(\"VT-FAIL %s.RuntimeDoc(%%q) = %%q, %%v; want nil, false\", %q, doc, found)\n\t\t}\n", n, ty.Name, n)
+				// a longer name path that starts with an unknown name is unknown as well
+				fmt.Fprintf(b, "\t\tif doc, found := d.RuntimeDoc(%q, \"Sub\"); found || len(doc) != 0 {\n\t\t\tt.Errorf(\"VT-FAIL %s.RuntimeDoc(%%q, Sub) = %%q, %%v; want nil, false\", %q, doc, found)\n\t\t}\n", n, ty.Name, n)
 			}
 		}
 		b.WriteString("\t}\n")
@@ -498,6 +512,9 @@ func c16Features(c c16Case) []string {
 					if strings.ContainsAny(l, "\"\\`%@'") {
 						esc = true
 					}
+				}
+				if strings.Contains(f.Type, "[") && strings.HasPrefix(f.Type, "Type") {
+					fs["field-of-generic-instantiation"] = true
 				}
 			}
 			if esc {
